@@ -98,6 +98,19 @@ def shard(ctx, si, payload):
     # an event of the fault-free workload that raises when evaluated alone (seen only on changed
     # trees, for the NaN cloud tops) must make the batch call raise too; the remaining monitors
     # then run without NaN cloud tops
+    if fam == "sync-partitions":
+        # the empty batch: zero events evaluated one at a time give zero results
+        for name, kw in (("synchronous", {"scheduler": "synchronous"}), ("threads-4", {"scheduler": "threads", "num_workers": 4})):
+            for empty in (tuple(np.array([]) for _ in range(5)), tuple(x[:0] for x in ev_all), tuple([] for _ in range(5))):
+                ctx.count("empty-batch")
+                try:
+                    with dask.config.set(**kw):
+                        got = batch(empty)
+                    shp = [np.shape(x) for x in got]
+                    if not (len(got) == 2 and all(s_ == (0,) for s_ in shp)):
+                        ctx.violation("empty-batch", f"{name}: the batch call on zero events returns arrays of shape {shp} (values {[np.asarray(x).ravel()[:1].tolist() for x in got]}) instead of two empty arrays", {"scheduler": name})
+                except Exception as e:
+                    ctx.exception("empty-batch", f"{name}: the batch call on zero events raised", e, {"scheduler": name})
     nf = first_natural_failure(ev_all) if fam in ("sync-partitions", "faults") else None
     if nf is not None:
         i, ex = nf
@@ -332,7 +345,7 @@ def run(ctx):
     if T:
         P += [{"family": "processes", "workers": [4], "sizes": [2, 101, 250]}, {"family": "adversarial", "n": 15, "ps": 3, "nsched": 0, "enumerate": True}, {"family": "yield", "nseeds": 60}, {"family": "yield", "nseeds": 60}]
     core.run_shards(ctx, "nssmon.checks.c10", "shard", P, workers=min(16, len(P)), timeout=ctx.pick(900, 6000))
-    for m in ("scheduler", "real-cloud", "configured-kernel", "partitions", "adversarial", "yield", "frozen-state", "faults", "faults-control"):
+    for m in ("empty-batch", "scheduler", "real-cloud", "configured-kernel", "partitions", "adversarial", "yield", "frozen-state", "faults", "faults-control"):
         ctx.require(m)
     return ctx.finish(
         rule="batches of {1,2,99,100,101,250} unique events, each with its own cloud top (a position-dependent cloud function), under every scheduler family; partition sizes {1,2,3,7,100,n,n+1}; adversarial start/release orders (seeded, and all P! start orders for P = 4 [5 in thorough]); yield-injected 4-thread runs with the shared kernel frozen; a failing event at every position of 25 and at {0,99,100,125,249} of 250; a case is a distinct (family, schedule / scheduler / partitioning / fault position); every one is non-trivial (it is compared with the sequential model or must raise)",
